@@ -1,6 +1,8 @@
 """Index-skeleton domain (DESIGN 3.3): integers, booleans and enums are concrete, every
 floating-point value is erased to TOP, arrays are abstract objects whose element accesses are
 reported as effects.  Used by C17 (index functions on representative shapes) and by EFF."""
+import re
+
 from . import ir
 from .interp import Cell, Domain, Interp, Obj, Opaque, Undef, ThrowEx
 from .ir import AnalysisBroken
@@ -380,6 +382,16 @@ class ConcDomain(Domain):
             f0 = it.rvalue(args[0], fr)
             if isinstance(f0, tuple) and f0 and f0[0] == "lambda":
                 return self.call_lambda(f0, [it.rvalue(a, fr) for a in args[1:]], e)
+        if k == "Construct" and not e.get("copy") and not e.get("move") and len(args) <= 2:
+            t_ = e.get("t", "").replace("const ", "").strip()
+            if t_.startswith("std::vector<double") or t_.startswith("std::vector<int"):
+                # std::vector<T> v; / v(n); / v(n, value)
+                elem_ = "int" if t_.startswith("std::vector<int") else "double"
+                vals = [it.rvalue(a_, fr) for a_ in args]
+                if not vals or isinstance(vals[0], int):
+                    a_ = self.new_array("vector", 0, elem_)
+                    self.vector_assign(a_, vals[0] if vals else 0, vals[1] if len(vals) > 1 else 0, e, fr)
+                    return a_
         if base == "std::make_unique" and "[]" in callee and len(args) == 1:
             n = it.rvalue(args[0], fr)
             elem = "int" if "<int[]>" in callee.replace(" ", "") else "double"
@@ -398,6 +410,74 @@ class ConcDomain(Domain):
                 for i in range(a.off, b.off):
                     self.index(a.arr, i, e, fr).set(v)
                 return None
+        # iterator arithmetic on vector iterators (member and free operator overloads of __normal_iterator)
+        if "__normal_iterator" in callee and "operator" in callee:
+            opn = callee.split("operator", 1)[1].split("<")[0].strip() if "operator<" not in callee.split("operator", 1)[1][:2] else callee.split("operator", 1)[1][:2].strip()
+            opn = callee.rsplit("operator", 1)[1]
+            # strip template arguments but keep comparison operators
+            for cand in ("+=", "-=", "++", "--", "==", "!=", "<=", ">=", "[]", "->", "+", "-", "*", "<", ">"):
+                if opn.startswith(cand):
+                    opn = cand
+                    break
+            operands = []
+            if e.get("this") is not None and k == "Call":
+                operands.append(it.eval(e["this"], fr))
+            operands += [it.eval(a_, fr) for a_ in args]
+            cells = operands
+            vals = [c_.get() if isinstance(c_, Cell) else c_ for c_ in operands]
+            if vals and isinstance(vals[0], PtrInto):
+                p0 = vals[0]
+                if opn in ("+", "-") and len(vals) == 2 and isinstance(vals[1], int):
+                    return PtrInto(p0.arr, p0.off + (vals[1] if opn == "+" else -vals[1]))
+                if opn == "-" and len(vals) == 2 and isinstance(vals[1], PtrInto) and vals[1].arr is p0.arr:
+                    return p0.off - vals[1].off
+                if opn in ("+=", "-=") and len(vals) == 2 and isinstance(vals[1], int) and isinstance(cells[0], Cell):
+                    cells[0].set(PtrInto(p0.arr, p0.off + (vals[1] if opn == "+=" else -vals[1])))
+                    return cells[0]
+                if opn in ("++", "--") and isinstance(cells[0], Cell):
+                    cells[0].set(PtrInto(p0.arr, p0.off + (1 if opn == "++" else -1)))
+                    return p0 if len(vals) == 2 else cells[0]      # postfix (dummy int argument) yields the old value
+                if opn == "*" and len(vals) == 1:
+                    return self.elem_class()(p0.arr, p0.off, self, site)
+                if opn == "[]" and len(vals) == 2 and isinstance(vals[1], int):
+                    return self.elem_class()(p0.arr, p0.off + vals[1], self, site)
+                if opn in ("==", "!=", "<", "<=", ">", ">=") and len(vals) == 2 and isinstance(vals[1], PtrInto) and vals[1].arr is p0.arr:
+                    a_, b_ = p0.off, vals[1].off
+                    return {"==": a_ == b_, "!=": a_ != b_, "<": a_ < b_, "<=": a_ <= b_, ">": a_ > b_, ">=": a_ >= b_}[opn]
+        if k == "Construct" and re.match(r"^std::(plus|minus|multiplies|divides)<", (e.get("t") or "").replace("const ", "")) and not args:
+            return ("arith-functor", re.match(r"^std::(\w+)<", (e.get("t") or "").replace("const ", "")).group(1))
+        if base == "std::transform" and len(args) in (4, 5):
+            vals = [it.rvalue(a_, fr) for a_ in args]
+            f_ = vals[-1]
+            srcs = vals[:-2] if len(args) == 4 else [vals[0], vals[1], vals[2]]
+            dst = vals[-2]
+            if isinstance(vals[0], PtrInto) and isinstance(vals[1], PtrInto) and vals[0].arr is vals[1].arr and isinstance(dst, PtrInto) and (len(args) == 4 or isinstance(vals[2], PtrInto)):
+                n_ = vals[1].off - vals[0].off
+                for i in range(n_):
+                    xs = [self.index(vals[0].arr, vals[0].off + i, e, fr).get()]
+                    if len(args) == 5:
+                        xs.append(self.index(vals[2].arr, vals[2].off + i, e, fr).get())
+                    if isinstance(f_, tuple) and f_ and f_[0] == "lambda":
+                        r_ = self.call_lambda(f_, xs, e)
+                    elif isinstance(f_, tuple) and f_ and f_[0] == "arith-functor" and len(xs) == 2:
+                        r_ = self.binop({"plus": "+", "minus": "-", "multiplies": "*", "divides": "/"}[f_[1]], xs[0], xs[1], e, fr)
+                    else:
+                        raise AnalysisBroken("callable %r in std::transform not modelled at %s" % (f_, site))
+                    self.index(dst.arr, dst.off + i, e, fr).set(r_)
+                return PtrInto(dst.arr, dst.off + max(n_, 0))
+        if base == "std::copy_n" and len(args) == 3:
+            a, n_, c = it.rvalue(args[0], fr), it.rvalue(args[1], fr), it.rvalue(args[2], fr)
+            if isinstance(a, PtrInto) and isinstance(c, PtrInto) and isinstance(n_, int):
+                for i in range(n_):
+                    v = self.index(a.arr, a.off + i, e, fr).get()
+                    self.index(c.arr, c.off + i, e, fr).set(v)
+                return PtrInto(c.arr, c.off + max(n_, 0))
+        if base == "std::fill_n" and len(args) == 3:
+            a, n_, v = it.rvalue(args[0], fr), it.rvalue(args[1], fr), it.rvalue(args[2], fr)
+            if isinstance(a, PtrInto) and isinstance(n_, int):
+                for i in range(a.off, a.off + n_):
+                    self.index(a.arr, i, e, fr).set(v)
+                return PtrInto(a.arr, a.off + max(n_, 0))
         if base in ("std::begin", "std::end") and len(args) == 1:
             a = it.rvalue(args[0], fr)
             if isinstance(a, Arr):
@@ -456,11 +536,50 @@ class ConcDomain(Domain):
                 n = it.rvalue(args[0], fr)
                 this.length = n
                 return None
+            if base.startswith("std::vector::"):
+                if mname in ("reserve", "shrink_to_fit"):
+                    for a_ in args:
+                        it.rvalue(a_, fr)
+                    return None
+                if mname == "clear":
+                    self.vector_assign(this, 0, 0, e, fr)
+                    return None
+                if mname in ("push_back", "emplace_back") and len(args) == 1:
+                    v = it.rvalue(args[0], fr)
+                    i = this.length or 0
+                    this.length = i + 1
+                    self.index(this, i, e, fr).set(v)
+                    return None
+                if mname == "pop_back" and not args:
+                    if not this.length:
+                        raise AnalysisBroken("pop_back on an empty vector at %s" % site)
+                    this.length -= 1
+                    if this.elem == "int":
+                        this.ints.pop(this.length, None)
+                    elif hasattr(this, "sym"):
+                        this.sym.pop(this.length, None)
+                    return None
+            if mname == "assign" and len(args) == 2 and base.startswith("std::vector::"):
+                # v.assign(n, value): n copies of value
+                n, v = it.rvalue(args[0], fr), it.rvalue(args[1], fr)
+                if isinstance(n, int):
+                    self.vector_assign(this, n, v, e, fr)
+                    return None
             if mname == "empty":
                 return this.length == 0
             if mname == "at":
                 return self.elem_class()(this, it.rvalue(args[0], fr), self, site)
         return NotImplemented
+
+    def vector_assign(self, arr, n, v, e, fr):
+        arr.length = n
+        if arr.elem == "int":
+            arr.ints = {i: v for i in range(n)}
+        else:
+            if hasattr(arr, "sym"):
+                arr.sym = {}
+            for i in range(n):
+                self.index(arr, i, e, fr).set(v)
 
     def elem_class(self):
         return Elem
